@@ -522,3 +522,12 @@ def x10(ctx):
 
 
 RULES.append(x10)
+
+
+@rule("X11", doc="extraction succeeds for every live class: the classes Extractor::new seeds and propagates over are EGraph::ids() = exactly the leaders (C04.M11) — a live class missing from ids() has no entry in the cost table and extract panics on it")
+def x11_m11(ctx):
+    from . import c04
+    c04.m11(ctx)
+
+
+RULES.append(x11_m11)
